@@ -36,14 +36,14 @@ TARGETS = {
     "8086": dict(cpu="8086", origins=[0, 0x100], table=0x4000, byte="db", be=False, wordsz=2),
 }
 KINDS = {
-    "68000": ["word", "abs", "jmp", "bra", "bsr", "bsrx", "bcc", "equ", "qimm"],
-    "68020": ["word", "abs", "jmp", "bra", "bsr", "bsrx", "bcc", "equ", "qimm"],
+    "68000": ["word", "abs", "jmp", "bra", "bsr", "bsrx", "bcc", "equ", "qimm", "selfw"],
+    "68020": ["word", "abs", "jmp", "bra", "bsr", "bsrx", "bcc", "equ", "qimm", "selfw"],
     "6502": ["word", "abs", "jmp", "sbra", "equ"],
     "6809": ["word", "abs", "jmp", "bra", "sbra", "equ"],
     "6811": ["word", "abs", "jmp", "sbra", "equ"],
     "8086": ["word", "abs", "bra", "equ"],
 }
-MAXSZ = dict(word=4, abs=6, jmp=6, bra=4, bsr=4, bsrx=4, bcc=4, sbra=2, equ=4, qimm=2)
+MAXSZ = dict(word=4, abs=6, jmp=6, bra=4, bsr=4, bsrx=4, bcc=4, sbra=2, equ=4, qimm=2, selfw=6)
 
 
 # (short branch with a label operand, byte data statement, extra prologue) for the "shadow" programs
@@ -254,15 +254,22 @@ def render(case):
             L.append(mark)
             op = {
                 "68000": dict(word="dc.l lab%d", abs="lea lab%d,a0", jmp="jmp lab%d", bra="bra lab%d", bsr="bsr lab%d",
-                              bsrx="bsr lab%d+0", bcc="beq lab%d", equ="dc.l equ%d", qimm="addq.l #qc%d,d0"),
+                              bsrx="bsr lab%d+0", bcc="beq lab%d", equ="dc.l equ%d", qimm="addq.l #qc%d,d0", selfw=""),
                 "68020": dict(word="dc.l lab%d", abs="lea lab%d,a0", jmp="jmp lab%d", bra="bra lab%d", bsr="bsr lab%d",
-                              bsrx="bsr lab%d+0", bcc="beq lab%d", equ="dc.l equ%d", qimm="addq.l #qc%d,d0"),
+                              bsrx="bsr lab%d+0", bcc="beq lab%d", equ="dc.l equ%d", qimm="addq.l #qc%d,d0", selfw=""),
                 "6502": dict(word="adr lab%d", abs="lda lab%d", jmp="jmp lab%d", sbra="bne lab%d", equ="adr equ%d"),
                 "6809": dict(word="fdb lab%d", abs="lda lab%d", jmp="jmp lab%d", bra="lbra lab%d", sbra="bra lab%d",
                              equ="fdb equ%d"),
                 "6811": dict(word="fdb lab%d", abs="ldaa lab%d", jmp="jmp lab%d", sbra="bra lab%d", equ="fdb equ%d"),
                 "8086": dict(word="dw lab%d", abs="mov ax,word ptr [lab%d]", bra="jmp lab%d", equ="dw equ%d"),
             }[tn][kind]
+            if kind == "selfw":
+                # a long word at an odd address whose first operand is its own label: the label moves with the pad
+                # byte, the operand must be the moved value
+                L.append("\tdc.b 17")
+                L.append("sf%d:\tdc.l sf%d" % (rid, rid))
+                refs.append((rid, kind, k, fwd))
+                continue
             L.append("\t" + op % (rid if kind in ("equ", "qimm") else k))
             refs.append((rid, kind, k, fwd) if kind != "qimm" else (rid, kind, k, fwd, it[4]))
     if D:
@@ -310,6 +317,11 @@ def decode(tn, kind, mem, a, dp=0):
     if tn in ("68000", "68020"):
         if kind in ("word", "equ"):
             return (be16(0) << 16) | be16(2), 4
+        if kind == "selfw":
+            if b(0) != 17:
+                raise ValueError("byte %02x in front of the long word" % b(0))
+            o = 1 + ((a + 1) & 1 if dp else 0)        # dp: padding is on
+            return (be16(o) << 16) | be16(o + 2), o + 4
         if kind == "qimm":
             if be16(0) & 0xf1ff != 0x5080:
                 raise ValueError("opcode %04x" % be16(0))
@@ -486,7 +498,7 @@ def execute(case):
             return engine.discarded("marker-not-unique", classes)
         a = hits[0] + 4
         try:
-            v, size = decode(tn, kind, mem, a, pages.get(rid, 0))
+            v, size = decode(tn, kind, mem, a, pages.get(rid, 0) if kind != "selfw" else case["padding"])
         except (KeyError, ValueError) as e:
             return engine.bad("reference %d (%s lab%d) not decodable at $%x: %s" % (rid, kind, k, a, e), key, classes,
                               **detail)
@@ -494,6 +506,12 @@ def execute(case):
         # PC-relative fields decode (from the load address) to the target's load address; absolute ones hold the
         # symbol value = load address + phase offset
         want = labaddr[k] if relative else (labaddr[k] + D + (1 if kind == "equ" else 0)) & amask
+        if kind == "selfw":
+            want = (a + size - 4 + D) & amask
+            if v != want:
+                return engine.bad("reference %d (sf%d: dc.l sf%d behind one byte at $%x) holds $%x, the padded long word "
+                                  "and its label are at $%x" % (rid, rid, rid, a, v, want), key, classes, **detail)
+            continue
         if kind == "qimm":
             want = ref[4]
             if v != want:
@@ -590,6 +608,11 @@ def fixed_cases(tier):
         out.append(dict(target="68000", origin=0, padding=pad,
                         items=[["ref", "bra", 0, 0], ["fill", 125], ["fill", 1], ["lab", 0], ["ref", "bsr", 0, 1]]))
     out.append(dict(target="68000", origin=0, padding=True, items=[["ref", "bsrx", 0, 0], ["lab", 0]]))
+    for pad in (True, False):
+        for n in (0, 1, 2, 3):
+            out.append(dict(target="68000", origin=0, padding=pad, phase=0,
+                            items=[["lab", 0], ["fill", n], ["ref", "selfw", 0, 0], ["ref", "selfw", 0, 1], ["lab", 1]]))
+
     for org in (0x7ffffe00, 0x80000000, 0xffff7f00):
         for pad in (True, False):
             out.append(dict(target="68020", origin=org, padding=pad,
